@@ -31,6 +31,9 @@ T0 = 1_700_000_000_000_000_000
 HOST = '''"""c16 host"""
 LIMIT = 42
 WORDS = ["zero", "one", "two"]
+name = "module-level-name"
+count = -7
+data = "module-level-data"
 
 
 def shout(s):
